@@ -3,17 +3,17 @@ package drive
 import (
 	"encoding/hex"
 	"encoding/json"
-	"time"
 	"fmt"
 	"sort"
 	"strings"
+	"time"
 
 	"verifharness/simpeer"
 	"verifharness/world"
 
 	fpb "github.com/anoideaopen/foundation/proto"
-	"golang.org/x/crypto/sha3"
 	"github.com/golang/protobuf/proto" //nolint:staticcheck
+	"golang.org/x/crypto/sha3"
 	"google.golang.org/protobuf/types/known/timestamppb"
 )
 
@@ -23,8 +23,8 @@ func init() { Registry["C11"] = &Prop{Gen: genC11, New: func() Executor { return
 
 type c11ex struct {
 	base
-	c *world.Chan
-	o world.Options
+	c    *world.Chan
+	o    world.Options
 	open map[string]string // "s" / "m" -> id of the swap / multi-swap begun last
 }
 
